@@ -51,7 +51,7 @@ func main() {
 		_ = res.Write(f.Out)
 		return
 	}
-	res.Extra["table"] = map[string]any{"rows": len(tbl.Rows), "fields": len(tbl.Fields), "locks": tbl.Locks, "tracked_types": tbl.Types, "chans": tbl.Chans, "shared_globals": tbl.Notes}
+	res.Extra["table"] = map[string]any{"rows": len(tbl.Rows), "fields": len(tbl.Fields), "locks": tbl.Locks, "tracked_types": tbl.Types, "chans": tbl.Chans, "shared_globals": tbl.Notes, "goroutine_captures": tbl.Captured}
 	drv, err := lib.StartDriver(f.Driver)
 	if err != nil {
 		lib.Fatal(err)
@@ -323,7 +323,7 @@ func runRace(f lib.Flags, res *lib.Result, tbl *Table) {
 		}
 	}
 	results := make([]childResult, len(jobs))
-	sem := make(chan struct{}, 3)
+	sem := make(chan struct{}, 4)
 	var wg sync.WaitGroup
 	t0 := time.Now()
 	for i, j := range jobs {
@@ -332,13 +332,13 @@ func runRace(f lib.Flags, res *lib.Result, tbl *Table) {
 			defer wg.Done()
 			sem <- struct{}{}
 			defer func() { <-sem }()
-			results[i] = runChild(self, j.sc, j.seed, j.g, j.it, dir, time.Duration(f.N(36, 90))*time.Second)
+			results[i] = runChild(self, j.sc, j.seed, j.g, j.it, dir, time.Duration(f.N(60, 180))*time.Second)
 		}(i, j)
 	}
 	wg.Wait()
 	res.Extra["race_wall_s"] = time.Since(t0).Seconds()
 	root := lib.RepoRoot()
-	var errs []string
+	var errs, slow []string
 	walls := map[string]float64{}
 	for i, cr := range results {
 		j := jobs[i]
@@ -347,6 +347,12 @@ func runRace(f lib.Flags, res *lib.Result, tbl *Table) {
 		if cr.Err != "" {
 			errs = append(errs, cr.Scenario+": "+cr.Err)
 			continue
+		}
+		if cr.Slow != "" {
+			// a machine too loaded to finish the scenario in time is not a property failure: what the
+			// detector reported so far is used, the scenario is listed as incomplete
+			slow = append(slow, cr.Scenario+": "+cr.Slow)
+			mon.Count(cr.Scenario + " incomplete")
 		}
 		if cr.Fatal != "" {
 			kind := strings.SplitN(cr.Fatal, "\n", 2)[0]
@@ -408,9 +414,12 @@ func runRace(f lib.Flags, res *lib.Result, tbl *Table) {
 		}
 	}
 	res.Extra["race_scenario_wall_s"] = walls
+	res.Extra["race_incomplete"] = slow
 	if len(errs) > 0 {
 		sort.Strings(errs)
 		mon.Error = strings.Join(errs, " ;; ")
+	} else if len(slow)*2 > len(results) {
+		mon.Error = "more than half of the scenarios did not complete: " + strings.Join(slow, " ;; ")
 	}
 }
 
